@@ -24,9 +24,22 @@ def run(c):
     drv = c.driver(DRIVER)
     binary = c.go_build(HARNESS)
     if binary and drv:
-        rc, out = c.go_run(binary, ["-mode=c15", f"-n={c.n(400, 12000)}"], timeout=1500)
-        c.harness_ok(rc, out, "verif-c15 -mode=c15")
-        c.correspond(out, drv)
+        # corpus first: minimised histories of past findings / quirks, replayed through -mode=script
+        import glob, os
+        for f in sorted(glob.glob(os.path.join(os.path.dirname(os.path.abspath(__file__)), "..", "corpus", "C15", "*.ops"))):
+            rc, out = c.go_run(binary, ["-mode=script", "-arg=" + os.path.abspath(f)])
+            c.harness_ok(rc, out, "verif-c15 -mode=script " + os.path.basename(f))
+            c.correspond(out, drv, label="script:" + os.path.abspath(f))
+        # several harness processes in parallel (each a different seed derived from VERIF_SEED), one correspondence each
+        from concurrent.futures import ThreadPoolExecutor
+        chunks, per = c.n((4, 70), (8, 1500))
+        def one(k):
+            return c.go_run(binary, ["-mode=c15", f"-n={per}", f"-seed={c.seed * 1000 + k}"], timeout=1500)
+        with ThreadPoolExecutor(chunks) as ex:
+            outs = list(ex.map(one, range(chunks)))
+        for rc, out in outs:
+            c.harness_ok(rc, out, "verif-c15 -mode=c15")
+            c.correspond(out, drv)
 
     def search():
         if not binary:
@@ -39,6 +52,21 @@ def run(c):
     return search
 
 
+def replay(c):
+    import json, sys, vf
+    rp = json.load(open(c.replay))
+    label = rp.get("label") or ""
+    if label.startswith("script:"):       # a corpus history: re-run that script on the current tree and on the model
+        binary = c.go_build(HARNESS); drv = c.driver(DRIVER)
+        rc, out = c.go_run(binary, ["-mode=script", "-arg=" + label[len("script:"):]])
+        print("---- implementation (current tree)"); print(out)
+        cases, _, _ = vf.parse_stream(out)
+        feed = "\n".join(l for cs in cases for l in [cs.header] + cs.ops) + "\n"
+        print("---- model"); print(vf.sh([drv], stdin=feed)[1])
+        return 1 if "\n! " in "\n" + out else 0
+    return vf.generic_replay(c, sys.modules[__name__])
+
+
 META = {
     "level": "proof",
     "technique": ("Lean 4 theorems over an executable model of SaveEntity/JournalEvents (invariants by induction over all request histories) "
@@ -46,12 +74,16 @@ META = {
     "text": ("Kernel-checked for every history of requests: an edit succeeds only from the entity's current version; every successful save "
              "gets max(previous versions)+1, so versions are globally unique and strictly increasing; once an edit from version v succeeded no "
              "later request naming v can succeed (at most one winner in any schedule) and k otherwise-valid racing edits have exactly one winner; "
-             "(namespace_id,type,name) stays unique; a namespace request cannot change the name; a namespaced metric/group gets the id of an "
+             "(namespace_id,type,name) stays unique; a request of type namespace cannot change the name (partial: type-mismatched requests excluded); a namespaced metric/group gets the id of an "
              "existing namespace row and that reference never dangles; the journal is strictly ascending by version, lists every entity at most "
              "once at its current version, is a prefix of the full list and paging from the last delivered version continues exactly where it stopped."),
     "note": ("Trusted: Lean kernel, SQLite, the engine's serialisation of Do callbacks, model<->code correspondence on generated histories "
-             "(quick 400, thorough 12000 histories). Observed on the unchanged tree and reported, not alarmed on: a request whose EventType differs "
-             "from the row's type is applied to the row (checkNamespace keys on the request type), so a namespace row can be renamed by a 'metric' "
-             "request; the theorems about namespaces therefore carry the hypothesis that the request type is the row type (Lean witness in Props/C15)."),
+             "(quick 280, thorough 12000 histories + corpus). GENUINE DEFECT on the pinned tree (oracle signature namespace-renamed, corpus/C15/"
+             "builtin-namespace-rename.ops): a namespace request with the create flag for an EXISTING builtin (negative id) namespace is turned into an "
+             "edit by SaveEntity but skipped checkNamespace, so it renames the namespace. The model and the theorems describe the code with "
+             "fixes/C15-builtin-namespace-rename.diff applied (Variant.fixed); Variant.old reproduces the pinned tree and the violation is a `decide` "
+             "example in Props/C15. Observed and reported, not alarmed on: a request whose EventType differs from the row's type is applied to the row "
+             "(SaveEntity never compares them), so e.g. a 'metric' request can overwrite and rename a namespace row; namespace_not_renamable_partial is "
+             "therefore about requests of type namespace, and the oracles skip rows touched by a type-mismatched request."),
     "design_ref": "DESIGN.md §6 C15",
 }
